@@ -96,16 +96,16 @@ func negField(run protoRun, name string) bool {
 type faultRun struct {
 	redealPoly []*big.Int // the polynomial the deviator deals instead of its own (coordinated strategy)
 	redealCmt  *cmtPair
-	commitD   []*big.Int // decommitment the deviator will reveal (coordinated strategy)
-	x         *runCtx
-	c         faultCase
-	held      []*sim.Delivery
-	cache     map[*sim.Emit][]byte
-	applied   int
-	consumed  int
-	na        bool // not applicable (e.g. no other party's value exists)
-	devN      *big.Int
-	targetSeq map[*sim.Emit]bool
+	commitD    []*big.Int // decommitment the deviator will reveal (coordinated strategy)
+	x          *runCtx
+	c          faultCase
+	held       []*sim.Delivery
+	cache      map[*sim.Emit][]byte
+	applied    int
+	consumed   int
+	na         bool // not applicable (e.g. no other party's value exists)
+	devN       *big.Int
+	targetSeq  map[*sim.Emit]bool
 }
 
 // otherEmit: the corresponding message of an honest party (same type; for p2p preferably to the same recipient).
@@ -644,7 +644,6 @@ func enumCells(run protoRun, kinds []string, listKinds []string, salt int, maxPe
 	return cells
 }
 
-
 // commitValues builds the values the deviator commits to (coordinated commit/reveal strategy).
 func (fr *faultRun) commitValues() []*big.Int {
 	f := fr.c.F
@@ -769,7 +768,6 @@ func enumCommitCells(run protoRun, salt int) []faultCase {
 	return cells
 }
 
-
 // runWrongSecret: the deviator takes part with Xi+1 instead of its share.
 func runWrongSecret(c faultCase) ev.Outcome {
 	run := c.Run
@@ -810,7 +808,6 @@ func runWrongSecret(c faultCase) ev.Outcome {
 	return out
 }
 
-
 // runWeakParams: the deviator takes part with a structurally correct but under-sized Paillier key and
 // ring-Pedersen modulus (its own proofs about them are honest). The property does not say such a party
 // must be refused; it says nothing bad may come out and blame may only name the deviator.
@@ -843,7 +840,6 @@ func runWeakParams(c faultCase) ev.Outcome {
 	}
 	return out
 }
-
 
 func out0(c faultCase) ev.Outcome {
 	return ev.Outcome{Label: fmt.Sprintf("%s %s kind=%s dev=%d", c.Run.Proto, shortType(c.F.MsgType), c.F.Kind, c.F.Deviator)}
@@ -980,7 +976,6 @@ func judgeMtA(x *runCtx, fr *faultRun, c faultCase, out ev.Outcome) ev.Outcome {
 	}
 	return out
 }
-
 
 type cmtPair struct {
 	C *big.Int
